@@ -9,24 +9,28 @@ from harness.extract import session as x_session
 from harness.rigs import session as rig
 
 MANIFEST = {
-    "text": "Lean 4 proof, for every state of two or more connected nodes and every sequence of add-user, disable-user, change-password, "
-            "local/remote login, local/remote command, logoff, service verbs, node power requests and ticks, about an executable model of "
+    "text": "Lean 4 proof, for every state of two or more connected nodes and every sequence of add-user, disable-user, enable-user, "
+            "change-password, local/remote login, the direct user-session-manager login/logout requests, local/remote terminal commands "
+            "carrying any node request (nested to any depth), logoff, service verbs, node power requests and ticks, about an executable model of "
             "UserManager / UserSessionManager / Terminal: a session appears only through a login with the current password of an existing, "
             "enabled account on a powered-on node with running managers and (remote) under the session limit, and every such attempt on an "
             "open path succeeds; a command changes the target only through a connection whose id is a live remote session of the target "
             "(or valid local credentials); session ids are fresh, an ended id is never valid again and commands on it change nothing; "
             "time-out is exact; a password change ends every session of the user; an enabled admin always remains; the session limit is "
-            "never exceeded and a login succeeds again once a session ended. Tie: constants, comparison operators and guard shapes "
+            "never exceeded and a login succeeds again once a session ended; in reachable states a session id has one client connection "
+            "and after a client logoff no node but the target holds it; the disconnect recursion never exhausts its fuel. Tie: constants, comparison operators and guard shapes "
             "regenerated from base.py / terminal.py / service.py (Gen/Session.lean, obligations C16_gen_*) + differential rig R-sess "
             "(2-3 real Computers on a Switch) comparing every answer and the whole session state after every operation, plus the "
             "property's own oracle on the implementation.",
     "note": "C16-specific: frame transport is abstracted to 'both NICs enabled and the receiver's terminal RUNNING' (one switch, no ACL); "
-            "commands are file creations with fresh names; shut_down/start_up durations >= 1 in the rig (duration 0 is C12/F-14).",
+            "a terminal command carries any node request (file creation with a fresh name, user-manager requests, service / power "
+            "requests, the direct user-session-manager requests, and terminal requests towards a further node, nested to any depth); "
+            "shut_down/start_up durations 0..2.",
     "technique": "Lean 4 theorems (invariants by induction over operation sequences) over an executable session model; model tied by "
                  "regenerated constants/guards and a differential rig on real nodes",
     "design_ref": "5/C16",
 }
-MODULES = ["PrimaiteModel.Props.C16"]
+MODULES = ["PrimaiteModel.Props.C16", "PrimaiteModel.Props.C16Conn"]
 EXE = "drv_c16"
 
 
@@ -35,6 +39,11 @@ def _first_diff(impl: List[str], model: List[str]) -> int:
         if a != b:
             return i
     return -1 if len(impl) == len(model) else min(len(impl), len(model))
+
+
+def _opname(line: str) -> str:
+    w = line.split()
+    return w[2] if w and w[0] == "req" and len(w) > 2 else (w[0] if w else "?")
 
 
 def _run_one(case: dict):
@@ -52,7 +61,7 @@ def _fails(case: dict) -> Optional[Tuple[dict, str]]:
         return o[0], o[1]
     d = _first_diff(impl, model)
     if d >= 0:
-        opname = lines[d].split()[0] if d < len(lines) else "?"
+        opname = _opname(lines[d]) if d < len(lines) else "?"
         a = impl[d] if d < len(impl) else None
         b = model[d] if d < len(model) else None
         field = "answer" if (a or "").split(" | ")[0] != (b or "").split(" | ")[0] else "state"
@@ -92,6 +101,13 @@ def run(ctx: Ctx):
     core = [a for a in alpha if a["op"] in ("rlogin", "rcmd", "rlogoff", "chpw", "tick") or a.get("v") == "stop"]
     for k, c in enumerate(rig.exhaustive_cases(base_cfg, [login], ctx.scale(3, 4), core)):
         cases.append((f"exhcore:{k}", c))
+    # the last-administrator rule: two administrator accounts, every way of disabling / enabling them
+    for k, c in enumerate(rig.exhaustive_cases(base_cfg, rig.ADMIN_PREFIX, ctx.scale(3, 4), rig.admin_alphabet())):
+        cases.append((f"exhadmin:{k}", c))
+    # direct session-manager requests and nested commands on three nodes
+    cfg3 = dict(base_cfg, n=3)
+    for k, c in enumerate(rig.exhaustive_cases(cfg3, [], ctx.scale(2, 3), rig.session_alphabet())):
+        cases.append((f"exhsess:{k}", c))
     rng = ctx.rng.fork("sess")
     for k in range(ctx.scale(500, 6000)):
         cases.append((f"gen:{k}", rig.gen_case(rng, max_ops=ctx.scale(30, 60))))
@@ -116,13 +132,19 @@ def run(ctx: Ctx):
         if "bad-op" in model:
             raise RuntimeError(f"driver rejected a line of case {name}")
         answers = [m.split(" | ")[0] for m in model[2:]]
-        opened = any(q.startswith("rlogin") and a == "success" for q, a in zip(lines[2:], answers))
+        opened = any(_opname(q) in ("rlogin", "usmlogin") and a == "success" for q, a in zip(lines[2:], answers))
         refused = any(a != "success" for a in answers)
         ctx.case(case, opened and refused)
         ctx.count("family:" + name.split(":")[0])
         for q, a in zip(lines[2:], answers):
-            opn = q.split()[0]
+            opn = _opname(q)
             ctx.count("op:" + opn)
+            w = q.split()
+            if opn in ("rcmd", "lcmd"):
+                inner = [t for t in w[3:] if t in ("file", "adduser", "disable", "chpw", "rlogin", "rlogoff", "usmlogin", "usmlogout", "svc",
+                                                    "shutdown", "startup", "reset")]
+                ctx.count(f"carried:{inner[-1] if inner else '?'}")
+                ctx.count(f"nesting-depth:{sum(1 for t in w[2:] if t in ('rcmd', 'lcmd'))}")
             ctx.count(f"answer:{opn}:{a}")
         if any("stuck=1" in m for m in model):
             ctx.count("model-out-of-fuel")
